@@ -581,6 +581,18 @@ func clear(kv storage.KvStorage) error {
 	if err != nil {
 		return err
 	}
+	if len(d) > 20 { // many records (snapshot cases): delete them in batches
+		for lo := 0; lo < len(d); lo += 100 {
+			b := kv.BeginBatchWrite()
+			for i := lo; i < lo+100 && i < len(d); i++ {
+				b.Del(d[i].K)
+			}
+			if err := b.Commit(context.Background()); err != nil {
+				return err
+			}
+		}
+		return nil
+	}
 	for _, e := range d {
 		if err := kv.Del(context.Background(), e.K); err != nil {
 			return err
@@ -634,6 +646,98 @@ func bigBatch(kv storage.KvStorage, n, keylen int, failing bool) (class string, 
 		_ = kv.Del(ctx, k)
 	}
 	return class, len(found), errStr
+}
+
+// snapshotCase stores n records, opens an iterator over all of them, reads `before` records, commits one batch that
+// changes records on both sides of what has been read, drains the iterator and compares the drained sequence with the
+// content at the moment the iterator was created.
+func snapshotCase(kv storage.KvStorage, n int, fwd bool, before int) (missing, extra int, inorder, applied bool, errStr string) {
+	ctx := context.Background()
+	defer func() {
+		if p := recover(); p != nil {
+			errStr = fmt.Sprint(p)
+		}
+	}()
+	key := func(i int) []byte { return []byte(fmt.Sprintf("snap/%05d", i)) }
+	val := func(i int) []byte { return []byte(fmt.Sprintf("v%d", i)) }
+	for lo := 0; lo < n; lo += 100 {
+		b := kv.BeginBatchWrite()
+		for i := lo; i < lo+100 && i < n; i++ {
+			b.Put(key(i), val(i), 0)
+		}
+		if err := b.Commit(ctx); err != nil {
+			return 0, 0, false, false, "setup: " + err.Error()
+		}
+	}
+	atCreation := map[string]string{}
+	for i := 0; i < n; i++ {
+		atCreation[string(key(i))] = string(val(i))
+	}
+	start, end := []byte("snap/"), []byte("snap0")
+	if !fwd {
+		start, end = end, start
+	}
+	it, err := kv.Iter(ctx, start, end, 0, 0)
+	if err != nil {
+		return 0, 0, false, false, "iter: " + err.Error()
+	}
+	defer it.Close()
+	var seq []kvp
+	read := func(max int) bool { // false = io.EOF reached
+		for i := 0; max < 0 || i < max; i++ {
+			err := it.Next(ctx)
+			if err == io.EOF {
+				return false
+			}
+			if err != nil {
+				errStr = "next: " + err.Error()
+				return false
+			}
+			seq = append(seq, kvp{cp(it.Key()), cp(it.Val())})
+			if len(seq) > 4*n {
+				errStr = "iterator does not end"
+				return false
+			}
+		}
+		return true
+	}
+	if read(before) {
+		b := kv.BeginBatchWrite()
+		b.Put(key(3), []byte("changed"), 0)
+		b.Put(key(n/2), []byte("changed"), 0)
+		b.Del(key(n - 4))
+		if err := b.Commit(ctx); err != nil {
+			return 0, 0, false, false, "batch: " + err.Error()
+		}
+		read(-1)
+	}
+	seen := map[string]bool{}
+	inorder = true
+	for i, e := range seq {
+		if v, ok := atCreation[string(e.K)]; !ok || v != string(e.V) || seen[string(e.K)] {
+			extra++
+		}
+		seen[string(e.K)] = true
+		if i > 0 {
+			c := bytes.Compare(seq[i-1].K, e.K)
+			if (fwd && c >= 0) || (!fwd && c <= 0) {
+				inorder = false
+			}
+		}
+	}
+	got := map[string]string{}
+	for _, e := range seq {
+		got[string(e.K)] = string(e.V)
+	}
+	for k, v := range atCreation {
+		if got[k] != v {
+			missing++
+		}
+	}
+	v3, e3 := kv.Get(ctx, key(3))
+	_, eDel := kv.Get(ctx, key(n-4))
+	applied = e3 == nil && string(v3) == "changed" && errors.Is(eDel, storage.ErrKeyNotFound)
+	return
 }
 
 // wrapFault runs one call of the metrics wrapper over an engine whose matching call fails with `inject`, and reports
@@ -801,6 +905,23 @@ func main() {
 				Coq:      lib.App("KBigBatch", coqEng[eng], lib.N(bigN), lib.N(bigLen), lib.Bool(failing), cl, lib.N(uint64(vis))),
 				JSON:     map[string]interface{}{"engine": eng, "name": "big-batch", "puts": bigN, "keylen": bigLen, "failing_cas": failing, "class": cl, "visible": vis, "err": es},
 				Outcomes: []string{"bigbatch:" + cl}})
+		}
+		// one consistent snapshot: what an open iterator delivers does not depend on batches committed meanwhile
+		for _, fwd := range []bool{true, false} {
+			const snapN, snapBefore = 300, 10
+			_ = clear(kv)
+			mi, ex, io2, ap, es := snapshotCase(kv, snapN, fwd, snapBefore)
+			if es != "" {
+				w.Fail(lib.ImplFailure{CaseID: w.Len(), What: "snapshot case on " + eng + ": " + es})
+			} else {
+				w.Add(lib.Case{Kind: "fixed:snapshot/" + eng,
+					Coq: lib.App("KSnapshot", coqEng[eng], lib.N(snapN), lib.Bool(fwd), lib.N(snapBefore),
+						lib.N(uint64(mi)), lib.N(uint64(ex)), lib.Bool(io2), lib.Bool(ap)),
+					JSON: map[string]interface{}{"engine": eng, "name": "snapshot", "records": snapN, "forward": fwd, "read_before_batch": snapBefore,
+						"batch": "Put k3, Put k150, Del k296", "missing_or_altered": mi, "not_in_snapshot": ex, "in_order": io2, "batch_applied": ap},
+					Outcomes: []string{fmt.Sprintf("snapshot:missing=%d,extra=%d", mi, ex)}})
+			}
+			_ = clear(kv)
 		}
 		er := rnd.Fork()
 		for s := 0; s < perEngine; s++ {
